@@ -55,6 +55,7 @@ type c12Case struct {
 	N     int   `json:"n"`
 	Reads []int `json:"reads"`
 	Ties  bool  `json:"ties"`
+	Micro bool  `json:"micro,omitempty"` // operations are 1us apart instead of 1s
 }
 
 type c12stats struct{ evict []float64 }
@@ -108,7 +109,10 @@ func c12One(cc c12Cell, cs c12Case) (string, string, string, int) {
 	model := map[string]*c12Entry{}
 
 	tick := func() {
-		if !cs.Ties {
+		switch {
+		case cs.Micro:
+			vclock.Advance(time.Microsecond)
+		case !cs.Ties:
 			vclock.Advance(time.Second)
 		}
 	}
@@ -271,9 +275,9 @@ func c12Cases(cc c12Cell, tier string) []c12Case {
 
 	histories := [][]int{{}}
 	if cc.Strategy != 0 {
-		maxLen := 2
+		maxLen := 3
 		if tier == "thorough" {
-			maxLen = 3
+			maxLen = 4
 		}
 
 		cur := [][]int{{}}
@@ -298,6 +302,10 @@ func c12Cases(cc c12Cell, tier string) []c12Case {
 			}
 
 			cases = append(cases, c12Case{N: n, Reads: h}, c12Case{N: n, Reads: h, Ties: true})
+
+			if len(h) > 0 {
+				cases = append(cases, c12Case{N: n, Reads: h, Micro: true})
+			}
 		}
 	}
 
@@ -362,7 +370,7 @@ func init() {
 		ID: "C12", Title: "Eviction fires only on limit breach, removes the right amount in strategy order",
 		Cells: c12Cells, Run: c12Run,
 		Rule: "complete grid CountSoftLimit x EvictFraction {default,0.1,0.25,0.5,0.9,1} x strategy {MostExpired,LRU,LFU} x EvictionNeeded {nil,false,true} x 3 backends; " +
-			"per cell every size 0..L+6, 3L+7, 10L x every read history of length <=2 (quick) / <=3 (thorough) over 4 keys x {distinct ranks, tied ranks}; two cleanup cycles through the janitor's own invokeCleanup; " +
+			"per cell every size 0..L+6, 3L+7, 10L x every read history of length <=3 (quick) / <=4 (thorough) over 4 keys x {operations 1s apart, 1us apart, all at one instant (tied ranks)}; two cleanup cycles through the janitor's own invokeCleanup; " +
 			"oracle: no eviction without breach, amount within one entry of the documented target, removed ranks <= kept ranks, cache_evict equals the entries actually removed",
 		Assumptions: []string{
 			"HeapInUseSoftLimit / SysMemSoftLimit depend on runtime.ReadMemStats, which is not a seam the harness owns; the shared code path after the decision is exercised through EvictionNeeded",
